@@ -964,9 +964,9 @@ MANIFEST = dict(
         "reported length is their number; the typestate rules are the fallback. _get_bucket_batch_sampler_params is interpreted the same way "
         "for data sets of 0-9 utterances with ties at and between the quantile boundaries, 1-4 buckets, static and dynamic sizing: every "
         "utterance gets a bucket that has a batch size, equal lengths share a bucket, buckets are monotone in length, and dynamic sizes are "
-        "the greatest fitting the frame budget - on that grid, not for all length distributions."),
+        "the greatest fitting the frame budget - on that grid, not for all length distributions. Deprecated arguments fall back on the parameter their deprecation warning names (context_left / context_right / reverse); utterance ids are returned last iff requested, also when converted in a statement of their own."),
     level_note="Trusted: python ast; torch pad_sequence / DataLoader. F3, F4 (seed chain, prefix default) and F17 (bare-"
                "tensor items bucketed by their first row) were found by these rules and repaired.",
-    technique="static analysis: argument binding, reaching definitions (def-use versions), path typestate, producer/consumer shape protocol, integer interpretation of the per-bucket length contribution; sampler length table (constructor, rank share and __len__ interpreted over the syntax tree); bucket sampler batches and reported length by interpretation of the generator over plain data; bucket assignment and batch-size map by interpretation of the parameter helper over tied length distributions",
+    technique="static analysis: argument binding, reaching definitions (def-use versions), path typestate, producer/consumer shape protocol, integer interpretation of the per-bucket length contribution; sampler length table (constructor, rank share and __len__ interpreted over the syntax tree); bucket sampler batches and reported length by interpretation of the generator over plain data; bucket assignment and batch-size map by interpretation of the parameter helper over tied length distributions; warning-text / fallback agreement of deprecated arguments",
     design_ref="DESIGN.md section 4 C14",
 )
